@@ -17,17 +17,17 @@ GROUP_IDS = {1: frozenset({11, 12}), 2: frozenset({21}), 3: frozenset({31, 32, 3
 
 SCOPES = {
     "quick": dict(
-        mc=dict(Groups={1, 2}, MaxReq=4),
-        gen=dict(Groups={1, 2}, MaxReq=3, MaxDepth=12),
+        mc=dict(Groups={1, 2}, MaxReq=4, MaxRestart=0),
+        gen=dict(Groups={1, 2}, MaxReq=3, MaxDepth=12, MaxRestart=1),
         gen_limit=4000,
-        sim=dict(Groups={1, 2}, MaxReq=6, MaxDepth=30),
+        sim=dict(Groups={1, 2}, MaxReq=6, MaxDepth=30, MaxRestart=2),
         sim_num=600,
     ),
     "thorough": dict(
-        mc=dict(Groups={1, 2, 3}, MaxReq=5),
-        gen=dict(Groups={1, 2}, MaxReq=4, MaxDepth=12),
+        mc=dict(Groups={1, 2, 3}, MaxReq=5, MaxRestart=0),
+        gen=dict(Groups={1, 2}, MaxReq=4, MaxDepth=12, MaxRestart=1),
         gen_limit=60000,
-        sim=dict(Groups={1, 2, 3}, MaxReq=10, MaxDepth=60),
+        sim=dict(Groups={1, 2, 3}, MaxReq=10, MaxDepth=60, MaxRestart=3),
         sim_num=20000,
     ),
 }
@@ -165,6 +165,20 @@ class Exec:
         self.lines.append(dict(ev="iter", obs=self.obs, proc=proc, pend=pend, idle=self.loop.idle()))
         self.obs = []
 
+    def restart(self) -> None:
+        """Cancel the actor's run loop, pump until it has ended, start it again."""
+        self.actor.cancel()
+        n = 0
+        while self.actor.is_running:
+            self.iter()
+            # the actor is down: a quiet loop here is not a point at which it owes progress
+            self.lines[-1]["idle"] = False
+            n += 1
+            if n > 50:
+                raise RuntimeError("run loop does not end after cancel()")
+        self.actor.start()
+        self.lines.append(dict(ev="restart"))
+
     def unresolved(self) -> list[int]:
         return [g for g, (p, fut) in self.parked.items() if not fut.done()]
 
@@ -192,6 +206,8 @@ def execute(case: dict, groups: list[int]) -> dict:
                 ex.send(a["g"], a["o"])
             elif a["a"] == "resolve":
                 ex.resolve(a["g"], a["o"])
+            elif a["a"] == "restart":
+                ex.restart()
             else:
                 if not ex.loop.idle():
                     ex.iter()
@@ -245,12 +261,17 @@ def _bind(rep: Report, name: str, consts: dict, work: Path, mode: str, limit, si
     )
     rep.validated += done
     # which observable situations were witnessed in accepted traces
-    wit = dict(pending_overwritten=0, pending_started_after_exc=0, concurrent_groups=0, instant=0)
+    wit = dict(pending_overwritten=0, pending_started_after_exc=0, concurrent_groups=0, instant=0, restart_while_in_flight=0)
     for p in shards:
         for r_ in load_ndjson(p):
             sent, entered, excg = set(), set(), set()
             conc = False
+            inflight_now = False
             for x in r_["lines"]:
+                if x["ev"] == "restart" and inflight_now:
+                    wit["restart_while_in_flight"] += 1
+                if x["ev"] == "iter":
+                    inflight_now = any(v == 1 for v in x["proc"])
                 if x["ev"] == "send":
                     sent.add(x["p"])
                 elif x["ev"] == "resolve" and x["o"] == "exc":
